@@ -651,6 +651,18 @@ def service_stage(c, judge):
     algo = SEEDED_ALGOS[i % 4]
     out = run_study(c, judge, algo, space, 1, [1], defaults=defaults, note=':seed')
     record(algo, out, space)
+  # the FIRST BATCH of an empty study (the policy's default point, the designer's own centre point, quasi-random seeds)
+  # on spaces with more categorical than numeric parameters, and purely categorical ones
+  catty = [
+      [{'name': 'lr', 't': 'D', 'lo': 1e-4, 'hi': 0.1, 'sc': 'LOG'}, {'name': 'act', 't': 'C', 'cats': ['gelu', 'relu', 'tanh'], 'sc': None},
+       {'name': 'opt', 't': 'C', 'cats': ['adam', 'sgd'], 'sc': None}, {'name': 'norm', 't': 'C', 'cats': ['batch', 'layer', 'none'], 'sc': None}],
+      [{'name': 'a', 't': 'C', 'cats': ['x', 'y', 'z'], 'sc': None}, {'name': 'b', 't': 'C', 'cats': ['p', 'q'], 'sc': None}],
+  ]
+  for si, space in enumerate(catty):
+    for algo in (['DEFAULT', 'GAUSSIAN_PROCESS_BANDIT'] if (quick and si == 0) else ['DEFAULT'] if quick else ['DEFAULT', 'GP_UCB_PE', 'GAUSSIAN_PROCESS_BANDIT']):
+      out = run_study(c, judge, algo, space, 1, [3], note=':first-batch')
+      record(algo, out, space)
+      c.count(1, ('first-batch', algo, si), kind='first-batch:' + algo)
   # boolean-only algorithms
   for algo in BOOL_ALGOS:
     for i in range(1 if quick else 4):
